@@ -10,6 +10,7 @@ import (
 	"io"
 	"net/http"
 	"net/url"
+	"slices"
 	"strconv"
 	"strings"
 
@@ -187,7 +188,13 @@ func c06(env *core.Env, mode string) {
 					return nil
 				}
 				env.Fault("backend-call-error")
-				switch c.Int("backend.errkind", 5) {
+				switch c.Int("backend.errkind", 6) {
+				case 5:
+					// a failure inside the backend that has a cancellation or a deadline of
+					// the backend's own at its root (a shared fetch abandoned by whoever
+					// started it, an internal timeout): this request's context is alive and
+					// its client is waiting for an answer
+					return fmt.Errorf("shared fetch abandoned: %w", []error{context.Canceled, context.DeadlineExceeded}[c.Int("backend.ctxerr", 2)])
 				case 4:
 					// an error that carries a detail: well-formed JSON, or whatever a careless
 					// backend put there
@@ -231,8 +238,16 @@ func c06(env *core.Env, mode string) {
 		}
 	}
 	var backend ociregistry.Interface = mem
+	// a backend may give an upload a new id whenever data has gone in; where the upload
+	// goes on is what its writer says afterwards
+	var rot *reg.Rotating
+	if c.Bool("backend.rotating-upload-ids", 1, 4) {
+		rot = reg.RotatingIDs(mem)
+		backend = rot
+		env.Probe("c06:backend-rotates-upload-ids")
+	}
 	if mode == "partial" {
-		backend = partialFuncs(c, mem)
+		backend = partialFuncs(c, backend)
 	}
 	backend = reg.Wrap(backend, tracker, plan)
 	opts := &ociserver.Options{
@@ -502,6 +517,24 @@ func c06(env *core.Env, mode string) {
 				uploadIDs = append(uploadIDs, string(b))
 			}
 		}
+		// The Location of an upload response is where the upload goes on: asked about it
+		// straight away, the backend is named a session as it knows it now, not one of its
+		// earlier ids.
+		if loc := wire.Header.Get("Location"); rot != nil && (status == 202 || status == 204) && strings.Contains(loc, "/blobs/uploads/") && opts.LocationForUploadID == nil {
+			if lu, perr := url.Parse(loc); perr == nil && (lu.Host == "" || lu.Host == "sim.example") {
+				before := len(rot.Superseded)
+				lu.Scheme, lu.Host = "http", "sim.example"
+				freq := (&http.Request{Method: "GET", URL: lu, Header: http.Header{}, Host: "sim.example"}).WithContext(cctx)
+				if fresp, ferr := tr.RoundTrip(freq); ferr == nil {
+					io.Copy(io.Discard, fresp.Body)
+					fresp.Body.Close()
+				}
+				env.Probe("c06:upload-location-followed")
+				if len(rot.Superseded) > before {
+					env.Failf(class("location-of-a-superseded-upload-id"), "%s %s?%s answered %d with Location %q; asked about that location at once, the backend was named upload id %q, which its writer had replaced when the data went in", method, path, rawq, status, loc, rot.Superseded[before])
+				}
+			}
+		}
 		if status >= 400 {
 			if method == "HEAD" {
 				continue
@@ -539,13 +572,22 @@ func c06(env *core.Env, mode string) {
 		if wire.Excess {
 			env.Failf(class("content-length-exceeded"), "%s %s: the handler wrote more than the Content-Length it declared (%d)", method, path, wire.DeclaredLen)
 		}
-		if faulty || mode == "partial" {
-			continue
+		// Whatever the backend did: a success is one of the statuses its endpoint has, and
+		// carries the headers that go with it (they are sent before the first body byte;
+		// a backend that fails later can break the body, not the headers).
+		lenient := faulty || mode == "partial"
+		if ok := map[string][]int{
+			"blob GET": {200, 206}, "blob HEAD": {200}, "blob DELETE": {202},
+			"manifest GET": {200}, "manifest HEAD": {200}, "manifest PUT": {201}, "manifest DELETE": {202},
+			"uploads POST": {201, 202}, "upload PATCH": {202}, "upload GET": {204}, "upload PUT": {201},
+			"catalog GET": {200}, "tags GET": {200}, "referrers GET": {200}, "ping GET": {200},
+		}[strings.SplitN(tmpl, "/", 2)[0]+" "+method]; ok != nil && !slices.Contains(ok, status) {
+			env.Failf(class("success-status-of-another-endpoint"), "%s %s?%s answered %d, which is not a success status of that endpoint (%v)", method, path, rawq, status, ok)
 		}
-		if rerr != nil {
+		if !lenient && rerr != nil {
 			env.Failf(class("content-length-short"), "%s %s answered %d but the body ended early (declared %d, wrote %d): %v", method, path, status, wire.DeclaredLen, len(wire.Body), rerr)
 		}
-		if wire.DeclaredLen >= 0 && method != "HEAD" && int64(len(rbytes)) != wire.DeclaredLen {
+		if !lenient && wire.DeclaredLen >= 0 && method != "HEAD" && int64(len(rbytes)) != wire.DeclaredLen {
 			env.Failf(class("content-length-mismatch"), "%s %s: Content-Length %d but %d body bytes", method, path, wire.DeclaredLen, len(rbytes))
 		}
 		need := func(h string) string {
@@ -571,7 +613,7 @@ func c06(env *core.Env, mode string) {
 			}
 			cl := need("Content-Length")
 			data, known := blobData[wantDigest]
-			if status == 200 && known && mut == "none" {
+			if !lenient && status == 200 && known && mut == "none" {
 				if cl != strconv.Itoa(len(data)) {
 					env.Failf(class("wrong-content-length"), "%s %s: Content-Length %s for a %d-byte blob", method, path, cl, len(data))
 				}
@@ -581,6 +623,9 @@ func c06(env *core.Env, mode string) {
 			}
 			if status == 206 {
 				cr := need("Content-Range")
+				if lenient {
+					break // (what the body holds is the failing backend's doing)
+				}
 				var a, b, total int
 				if n, _ := fmt.Sscanf(cr, "bytes %d-%d/%d", &a, &b, &total); n != 3 || b-a+1 != len(rbytes) || (known && total != len(data)) {
 					env.Failf(class("wrong-content-range"), "GET %s (Range %q) answered 206 with Content-Range %q and %d body bytes", path, hdr.Get("Range"), cr, len(rbytes))
@@ -627,7 +672,7 @@ func c06(env *core.Env, mode string) {
 			need("Docker-Content-Digest")
 		case (kind == "catalog" || kind == "tags" || kind == "referrers") && method == "GET" && status == 200:
 			var v map[string]any
-			if jerr := json.Unmarshal(rbytes, &v); jerr != nil {
+			if jerr := json.Unmarshal(rbytes, &v); jerr != nil && !lenient {
 				env.Failf(class("listing-not-json"), "GET %s answered 200 with a body that is not JSON: %q", path, rbytes)
 			}
 			need("Content-Length")
